@@ -26,6 +26,15 @@ func c09Model(ea time.Duration) func(st *engine.Step) {
 		t := st.Post.Truth
 		now := st.Pre.Now
 		u, u2 := o.UIDBefore(), o.UIDAfter()
+		if !o.Wrote {
+			// the handler returned an error and the silent default error handler wrote nothing: the
+			// queued session changes (refresh or expiry) never reached the client (DESIGN 7.6).
+			// The reference clock is unknown until the next login.
+			delete(t.Times, c09Last)
+			delete(t.Flags, "c09:await-first")
+			return
+		}
+		refreshed := false // the middleware refreshed a live stamp in this request
 		if u != "" {
 			if last, ok := st.Pre.Truth.Times[c09Last]; ok {
 				gap := now.Sub(last)
@@ -33,13 +42,12 @@ func c09Model(ea time.Duration) func(st *engine.Step) {
 				case gap > ea:
 					delete(t.Times, c09Last)
 				case gap < ea:
+					refreshed = true
 					t.Times[c09Last] = now
-				default: // exactly ExpireAfter: unspecified, follow what happened
-					if u2 == "" {
-						delete(t.Times, c09Last)
-					} else {
-						t.Times[c09Last] = now
-					}
+				default:
+					// exactly ExpireAfter: unspecified either way. The reference clock is unknown from here
+					// on (no assertions) until the next login restarts it.
+					delete(t.Times, c09Last)
 				}
 			}
 		}
@@ -47,12 +55,13 @@ func c09Model(ea time.Duration) func(st *engine.Step) {
 			// first request after a login that does not fire EventAuth: the clock starts here
 			t.Times[c09Last] = now
 			delete(t.Flags, "c09:await-first")
+			refreshed = true
 		}
 		if u2 != "" && u2 != u {
 			// a login completed in this request: the idle clock starts now ...
 			t.Times[c09Last] = now
 			delete(t.Flags, "c09:await-first")
-			if o.Req.Tag.Kind == "register" {
+			if o.Req.Tag.Kind == "register" && !refreshed {
 				// ... except for logins that do not fire EventAuth (registration, OAuth2): the
 				// library stamps those at the first request through the middleware (DESIGN 7.13)
 				delete(t.Times, c09Last)
